@@ -6,6 +6,7 @@ import (
 	"encoding/json"
 	"fmt"
 	"math"
+	"math/big"
 	"os"
 	"reflect"
 	"runtime/debug"
@@ -130,6 +131,18 @@ func VerifT3Replay() {
 	v.Assert((e1 == nil) == (e2 == nil), fmt.Sprintf("sonic and encoding/json disagree on accepting %q into %s: sonic err=%v, encoding/json err=%v", text, os.Getenv("VERIF_T3_TYPE"), e1, e2))
 	if e1 == nil && e2 == nil {
 		v.Assert(reflect.DeepEqual(a, b), fmt.Sprintf("decoded values differ for %q", text))
+	}
+	if os.Getenv("VERIF_T3_KIND") == "double" {
+		verifT3LongMidpoints()
+	}
+	// every proper prefix of the text, placed so that it ends at an inaccessible page: a load
+	// past the end of the input faults here; a truncated document must be an error
+	for cut := 1; cut < len(text) && cut <= 24; cut++ {
+		c := mk()
+		e := ConfigStd.UnmarshalFromString(v.GuardString(text[:cut]), c)
+		if json.Unmarshal([]byte(text[:cut]), mk()) != nil {
+			v.Assert(e != nil, fmt.Sprintf("sonic accepts the truncated document %q into %s", text[:cut], os.Getenv("VERIF_T3_TYPE")))
+		}
 	}
 }
 
@@ -641,6 +654,31 @@ func verifT3StructTag() {
 		v.Assert(e1 == nil && e2 == nil, fmt.Sprintf("Marshal fails for %T", val))
 		if e1 == nil && e2 == nil {
 			v.Assert(string(got) == string(want), fmt.Sprintf("Marshal(%#v): sonic gives %s, encoding/json %s", val, got, want))
+		}
+	}
+}
+
+// verifT3LongMidpoints: exact decimal spellings of m*2^-1075 (halfway between two float64
+// neighbours, 750..767 significant digits), each also with one more digit that pushes it above
+// the midpoint: sonic decodes to what strconv.ParseFloat gives.
+func verifT3LongMidpoints() {
+	for _, m := range []int64{1, 3, 5, 1<<52 + 1, 1<<53 - 1, 1<<53 + 1} {
+		r := new(big.Rat).SetFrac(big.NewInt(m), new(big.Int).Lsh(big.NewInt(1), 1075))
+		exact := r.FloatString(1075)
+		for _, text := range []string{exact, exact + "1", strings.TrimRight(exact, "0")} {
+			want, err := strconv.ParseFloat(text, 64)
+			if err != nil {
+				continue
+			}
+			var got float64
+			e := ConfigStd.UnmarshalFromString(text, &got)
+			v.Assert(e == nil, fmt.Sprintf("sonic rejects a %d-byte number literal", len(text)))
+			v.Assert(math.Float64bits(got) == math.Float64bits(want), fmt.Sprintf("a %d-digit literal near a rounding midpoint (m=%d) decodes to %x, strconv.ParseFloat gives %x", len(text), m, math.Float64bits(got), math.Float64bits(want)))
+			var iface interface{}
+			if ConfigStd.UnmarshalFromString(text, &iface) == nil {
+				f, _ := iface.(float64)
+				v.Assert(math.Float64bits(f) == math.Float64bits(want), fmt.Sprintf("a %d-digit literal near a rounding midpoint (m=%d) decodes into interface{} as %x, strconv.ParseFloat gives %x", len(text), m, math.Float64bits(f), math.Float64bits(want)))
+			}
 		}
 	}
 }
